@@ -97,7 +97,18 @@ func c06Check(sn *rkSnap) []c06Problem {
 		wantOwner := oi.RefCount == 1 && !oi.IsEscaped
 		if wantOwner != !oi.OwnerID.IsZero() {
 			kind := "owner"
-			if oi.IsEscaped && oi.RefCount == 1 {
+			// Known divergence (escaped-object-records-owner): an object that
+			// escaped in an earlier transaction loses all its references and is
+			// picked up by freshly created objects in one transaction; the first
+			// of them is recorded as owner (incRefCreatedDescendants, rc==1
+			// branch, does not look at IsEscaped) and further references in the
+			// same or later transactions do not clear it. Signature: escaped,
+			// OwnerID set, and the owner is YOUNGER than the object (same realm,
+			// larger NewTime). An owner that was merely not cleared when the
+			// object escaped is older than (or as old as) the object and stays a
+			// plain "owner" problem.
+			if oi.IsEscaped && !oi.OwnerID.IsZero() && oi.RefCount >= 1 &&
+				oi.OwnerID.PkgID == o.OID.PkgID && oi.OwnerID.NewTime > o.OID.NewTime {
 				kind = "owner-on-escaped"
 			}
 			add(kind, "object %s (%T): RefCount %d IsEscaped %v but OwnerID %q", id, o.Obj, oi.RefCount, oi.IsEscaped, oi.OwnerID.String())
@@ -367,7 +378,7 @@ const c06KeyStaleOwner = "owner-id-stale-after-reparenting"
 const c06KeyEscapedOwner = "escaped-object-records-owner"
 
 // c06After runs the checker after one transaction.
-func c06After(ctx *vk.Ctx, ch *rkChain, tr *c06Track, where string) error {
+func c06After(ctx *vk.Ctx, ch *rkChain, tr *c06Track, where string, tail ...string) error {
 	sn, err := rkSnapshot(ch.DB)
 	if err != nil {
 		return fmt.Errorf("%s: persisted state does not decode: %v", where, err)
@@ -406,7 +417,9 @@ func c06After(ctx *vk.Ctx, ch *rkChain, tr *c06Track, where string) error {
 		if len(bad) > 6 {
 			bad = append(bad[:6], fmt.Sprintf("... %d problems in total", len(bad)))
 		}
-		return fmt.Errorf("%s: %s", where, strings.Join(bad, "\n  "))
+		// the problem list first, long context (program text) last, so that a
+		// truncated message keeps the problems
+		return fmt.Errorf("%s: %s\n%s", where, strings.Join(bad, "\n  "), strings.Join(tail, "\n"))
 	}
 	return nil
 }
@@ -894,7 +907,7 @@ func c06ProgExec(ctx *vk.Ctx, c c06ProgCase) error {
 		return nil
 	}
 	tr := &c06Track{}
-	if err := c06After(ctx, ch, tr, "after deployment\n"+c.Prog.Src); err != nil {
+	if err := c06After(ctx, ch, tr, "after deployment", c.Prog.Src); err != nil {
 		return err
 	}
 	for i, cl := range c.Calls {
@@ -904,7 +917,7 @@ func c06ProgExec(ctx *vk.Ctx, c c06ProgCase) error {
 			return fmt.Errorf("harness: %v", err)
 		}
 		ctx.ClassIf(r.Error != nil, "has-failing-tx")
-		if err := c06After(ctx, ch, tr, fmt.Sprintf("after call %d %s(%d,%q) failed=%v\n%s", i, fn, cl.A, cl.S, r.Error != nil, c.Prog.Src)); err != nil {
+		if err := c06After(ctx, ch, tr, fmt.Sprintf("after call %d %s(%d,%q) failed=%v", i, fn, cl.A, cl.S, r.Error != nil), c.Prog.Src); err != nil {
 			return err
 		}
 	}
